@@ -49,6 +49,28 @@ def call(graph, x, y, z, api):
     return out
 
 
+def with_history(g, graph):
+    """The same graph reached through a history: built without a pendant node, queried, then extended by the missing
+    edge with add_directed_edge.  The answer must depend on (G, X, Y) alone."""
+    from y0.algorithm.identify import identify_outcomes
+
+    for u, v in g["d"]:
+        touches = [e for e in g["d"] if v in e] + [e for e in g["b"] if v in e]
+        if len(touches) == 1 and len(g["n"]) >= 3:
+            rest = [n for n in g["n"] if n != v]
+            part = build_graph({"n": rest, "d": [e for e in g["d"] if v not in e], "b": [e for e in g["b"] if v not in e]}, 0)
+            for a in rest:       # warm-up queries on the partial graph (not the calls under test)
+                for b in rest:
+                    if a != b:
+                        try:
+                            identify_outcomes(part, {var(a)}, {var(b)})
+                        except Exception:  # noqa: BLE001
+                            pass
+            part.add_directed_edge(var(u), var(v))
+            return part
+    return graph
+
+
 def main():
     src, dst, n_orders, semantic = sys.argv[1], sys.argv[2], int(sys.argv[3]), int(sys.argv[4])
     groups = []
@@ -58,6 +80,8 @@ def main():
         for qi, (x, y, z) in enumerate(item["qs"]):
             for order in range(n_orders):
                 graph = build_graph(g, order)
+                if order == 2:
+                    graph = with_history(g, graph)
                 out = call(graph, x, y, z, api=order % 2)
                 if out["k"] == "expr":
                     try:
